@@ -35,7 +35,7 @@ EXTENDS Integers, Sequences, FiniteSets, TLC
 CONSTANTS Roots,        \* universe of root names
           MaxExprs,     \* initial expressions per root: 1..MaxExprs
           MaxLate,      \* at most this many late roots
-          Space,        \* which configuration space Init draws from (see CfgSpace)
+          Space,        \* which configuration space Init draws from (see SpaceParams)
           Canonical,    \* TRUE: Roots() picks one fixed admissible order (vector generation)
           Deviations    \* named departures of the code from the design
 
@@ -118,11 +118,9 @@ BehFns(P, rg, lt) ==
       /\ (Len(lt) > 0) = (SumOver(Range(rg), f, "reg") > 0)
       /\ (Len(lt) < 2 => SumOver(Range(lt), f, "reg") = 0)}
 MkCfg(rg, lt, bh, E) == [reg |-> rg, late |-> lt, beh |-> bh, deps |-> DepFn(E)]
-\* the space as a set (Init enumerates it with nested quantifiers instead: TLC's enumeration of a
-\* big nested UNION is quadratic)
-CfgSpace == LET P == SpaceParams IN
-  UNION { UNION { UNION { {MkCfg(rg, lt, bh, E) : E \in SUBSET AllowedEdges(rg, lt, bh)}
-      : bh \in BehFns(P, rg, lt)} : lt \in LateSeqs(P, rg)} : rg \in P.regs}
+\* The space is  { MkCfg(rg, lt, bh, E) : rg \in P.regs, lt \in LateSeqs(P, rg), bh \in BehFns(P, rg, lt),
+\*                   E \in SUBSET AllowedEdges(rg, lt, bh) };  Init enumerates it with nested quantifiers (a
+\* constant definition holding the whole set is evaluated by TLC once per worker, tens of seconds).
 
 ---------------------------------------------------------------------------
 Init == /\ \E rg \in SpaceParams.regs : \E lt \in LateSeqs(SpaceParams, rg) : \E bh \in BehFns(SpaceParams, rg, lt) :
